@@ -49,15 +49,15 @@ def split_line(line):
 PROFILES = {
     "mixed-styles": dict(p_arg=0.35, flavours=["sync", "sync", "async", "async", "mixed", "guards"],
                          styles_v=["next", "anext", "call", "iter", "for", "mixed", "mixed"],
-                         styles_a=["next", "anext", "call", "mixed", "mixed"], quick=1200, thorough=90000, corpus=True),
+                         styles_a=["next", "anext", "call", "mixed", "mixed"], quick=3000, thorough=90000, corpus=True),
     "sync-access-of-async-body": dict(p_arg=0.3, flavours=["async", "mixed"], styles_v=["next", "iter", "for", "call-wait"],
-                                      styles_a=["next", "call-wait"], quick=500, thorough=60000),
+                                      styles_a=["next", "call-wait"], quick=1500, thorough=60000),
     "async-access": dict(p_arg=0.4, flavours=["async", "mixed", "sync"], styles_v=["anext", "call", "mixed"],
-                         styles_a=["anext", "call", "mixed"], quick=500, thorough=60000),
+                         styles_a=["anext", "call", "mixed"], quick=1500, thorough=60000),
     "arguments": dict(p_arg=1.0, flavours=["args", "args", "mixed"], styles_v=["mixed"], styles_a=["next", "anext", "call", "mixed", "mixed"],
-                      quick=400, thorough=50000),
+                      quick=1500, thorough=50000),
     "destroy-parked": dict(p_arg=0.2, flavours=["guards"], styles_v=["next", "anext", "call", "iter", "mixed"],
-                           styles_a=["next", "anext", "call", "mixed"], quick=400, thorough=40000, p_destroy=0.85),
+                           styles_a=["next", "anext", "call", "mixed"], quick=1500, thorough=40000, p_destroy=0.85),
 }
 
 
